@@ -145,6 +145,9 @@ Definition ms_case_ok (N : nat) (maxN : Z) (M0 : option Q) (force : bool) (bs : 
 (* ------------------------------------------------------------------------------------ *)
 Open Scope R_scope.
 
+(* indicator of the acceptance step for a real uniform number u (measure statement) *)
+Definition accept_ind (u w M : R) : R := if Rlt_dec (u * M) w then 1 else 0.
+
 (* ---- LinearInterp.  A bin is (x0, x1, k, b): density k*x + b on [x0, x1). ---- *)
 Definition lbin := (R * R * R * R)%type.
 Definition lx0 (bn : lbin) : R := fst (fst (fst bn)).
@@ -170,12 +173,12 @@ Definition bin_int (bn : lbin) : R :=
 (* 0.5 * k * (x*x - x1*x1) + b * (x - x1)   (+ int_step[bin]) *)
 Definition bin_cum (bn : lbin) (x : R) : R :=
   (1 / 2) * lk bn * (x * x - lx1 bn * lx1 bn) + lb bn * (x - lx1 bn).
-(* y = sqrt(b**2 + k*(k*x1**2 + 2*b*x1 + 2*d)) - b ; y2 = d + b*x1 ;
-   where(k == 0, y2, y) / where(k == 0, b, k) *)
+(* y = sqrt(maximum(b**2 + k*(k*x1**2 + 2*b*x1 + 2*d), 0)) - b ; y2 = d + b*x1 ;
+   where(k == 0, y2, y) / where(k == 0, b, k)          (np.maximum since commit 4bd73c9) *)
 Definition bin_solve (bn : lbin) (d : R) : R :=
   if Rle_dec (Rabs (lk bn)) 0
   then (d + lb bn * lx1 bn) / lb bn
-  else (sqrt (lb bn * lb bn + lk bn * (lk bn * (lx1 bn * lx1 bn) + 2 * lb bn * lx1 bn + 2 * d)) - lb bn) / lk bn.
+  else (sqrt (rmax 0 (lb bn * lb bn + lk bn * (lk bn * (lx1 bn * lx1 bn) + 2 * lb bn * lx1 bn + 2 * d))) - lb bn) / lk bn.
 
 (* int_step = cumsum(int_x); int_all = int_step[-1] *)
 Fixpoint li_int_step (acc : R) (bs : list lbin) : list R :=
@@ -214,6 +217,29 @@ Fixpoint call_from (bs : list lbin) (x : R) : R :=
       match bs' with
       | [] => lk bn * x + lb bn
       | _ :: _ => if Rle_dec (lx1 bn) x then call_from bs' x else lk bn * x + lb bn
+      end
+  end.
+
+(* the same two functions reading the stored cumulative sums self.int_step (as the code does)
+   instead of re-accumulating them: a list of (bin, int_step[bin]) *)
+Fixpoint with_steps (acc : R) (bs : list lbin) : list (lbin * R) :=
+  match bs with [] => [] | bn :: bs' => (bn, acc + bin_int bn) :: with_steps (acc + bin_int bn) bs' end.
+Fixpoint integral_steps (bs : list (lbin * R)) (x : R) : R :=
+  match bs with
+  | [] => 0
+  | bd :: bs' =>
+      match bs' with
+      | [] => bin_cum (fst bd) x + snd bd
+      | _ :: _ => if Rle_dec (lx1 (fst bd)) x then integral_steps bs' x else bin_cum (fst bd) x + snd bd
+      end
+  end.
+Fixpoint solve_steps (bs : list (lbin * R)) (t : R) : R :=
+  match bs with
+  | [] => 0
+  | bd :: bs' =>
+      match bs' with
+      | [] => bin_solve (fst bd) (t - snd bd)
+      | _ :: _ => if Rle_dec (snd bd) t then solve_steps bs' t else bin_solve (fst bd) (t - snd bd)
       end
   end.
 
